@@ -49,6 +49,8 @@ func propC17(c *Check) {
 		var out []string
 		for _, ef := range p.EdgeFacts(fn) {
 			out = append(out, ef.Fact)
+			// what a successful helper call establishes (under the key type the caller has already fixed)
+			out = append(out, p.impliedFacts(fn, ef, 2)...)
 		}
 		return out
 	}
@@ -167,6 +169,13 @@ func propC17(c *Check) {
 	for _, fn := range []*ssa.Function{v0, v1} {
 		for _, e := range p.CG().Out[fn] {
 			if FuncKey(e.To) == "x/bitcoin/types.VerifySystemAddressScript" {
+				// fine when the caller has already fixed the key type to ECDSA: the helper's other arm is unreachable
+				if site, ok := e.Site.(ssa.Instruction); ok && fn == v1 {
+					if t := p.typeAssumptionsAt(fn, site); t["$0.Key"] == "*relayer/types.PublicKey_Secp256K1" {
+						c.Held("R3", "verifier-uses-system-address-check @ "+FuncKey(fn), p.InstrPos(site), "delegates the key-hash output check to the system-address check under the ECDSA type guard")
+						continue
+					}
+				}
 				c.Violated("R3", "verifier-uses-system-address-check @ "+FuncKey(fn), p.InstrPos(e.Site), "deposit verification delegates to the relayer system-address check, whose key-type matrix differs (it accepts Schnorr keys for every version)")
 			}
 		}
